@@ -24,7 +24,7 @@ ASSUMPTIONS = [
 ]
 REQUIRED = {"op.append": 200, "op.extend": 100, "op.iterate.nested": 100, "op.iterate.zip": 50, "op.iterate.abandoned": 50,
             "op.write-through": 200, "op.dump": 100, "op.serialise": 50, "inspect": 3000, "view.checked": 3000,
-            "op.slice": 50, "construct.list": 20, "construct.molecule": 20, "construct.ensemble": 20, "construct.atoms": 20}
+            "op.slice": 50, "view.held-checked": 300, "op.write-through.held": 30, "construct.list": 20, "construct.molecule": 20, "construct.ensemble": 20, "construct.atoms": 20}
 CHUNK_TIMEOUT = 900
 TECHNIQUE = "runtime monitoring: rectangular-array reference model stepped beside the real ensemble + iteration-pattern oracle"
 LEVEL_TEXT = ("Held on the operation histories produced: after every operation the ensemble's three arrays, every conformer view "
@@ -123,6 +123,7 @@ class Driver:
         self.kinds = []
         self.ok = True
         self.grown_at = None
+        self.held = []          # (row, conformer object) taken earlier and kept across later operations
 
     def v(self, key, **detail):
         self.ok = False
@@ -143,6 +144,14 @@ class Driver:
         for name, got, wnt in (("coords", e.coords, m.coords), ("atomic_charges", e.atomic_charges, m.charges), ("weights", e.weights, m.weights)):
             if not close(got, wnt, exact):
                 return self.v(f"{after}:{name}-differ-from-expected")
+        # conformers taken earlier stay live views of their row (also after the ensemble grew or moved)
+        for row, c in self.held:
+            ctx.count("view.held-checked")
+            try:
+                if not close(c.coords, m.coords[row], exact) or not close(c.atomic_charges, m.charges[row], exact):
+                    return self.v(f"{after}:conformer-taken-earlier-no-longer-shows-its-row", conformer=row)
+            except Exception as ex:  # noqa
+                return self.v(f"{after}:conformer-taken-earlier-raises:{type(ex).__name__}", conformer=row, err=repr(ex)[:200])
         # every conformer is a view of its row
         for i in range(m.nc):
             ctx.count("view.checked")
@@ -281,6 +290,13 @@ class Driver:
                 i = rng.randrange(-m.nc, m.nc)
                 j = rng.randrange(m.na)
                 c = e[i]
+                if self.held and rng.random() < 0.5:
+                    i, c = rng.choice(self.held)       # write through a conformer object taken earlier
+                    ctx.count("op.write-through.held")
+                elif i >= 0 and rng.random() < 0.5:
+                    # (a conformer taken with a negative index means "counted from the end" and is not held)
+                    self.held.append((i, c))
+                    del self.held[:-4]
                 how = rng.choice(["coords[j]=v", "coords=M", "charges[j]=q", "charges=array"])
                 self.kinds.append(f"write:{how}")
                 if how == "coords[j]=v":
@@ -372,7 +388,12 @@ class Driver:
         want = list(range(nc))
         try:
             if pat == "list":
-                got = [self.row_of(c) for c in e]
+                cs = list(e)
+                if cs and rng.random() < 0.5:
+                    k = rng.randrange(len(cs))
+                    self.held.append((k, cs[k]))
+                    del self.held[:-4]
+                got = [self.row_of(c) for c in cs]
                 if not self.seq_ok(got, want):
                     return self.v("iterate:list:not-each-conformer-once-in-order", got=got[:12], want=want[:12])
                 if len(list(e)) != nc:
